@@ -217,6 +217,8 @@ pub struct World {
     /// transaction tick of the current step (label, file name, bytes)
     /// encrypted group images by hex(encrypted hash): (ciphertext, what the uploader itself decrypts)
     pub group_blobs: BTreeMap<String, (Vec<u8>, Vec<u8>)>,
+    /// the last file announced per group (plain bytes, MIME type)
+    pub last_media: BTreeMap<usize, (Vec<u8>, &'static str)>,
     pub capture_sidecars: bool,
     pub sidecar_captures: Vec<(String, String, Vec<u8>)>,
     pub last_crash: Option<(u32, usize, u64, String)>,
@@ -305,6 +307,7 @@ impl World {
             txn_baseline_view: None,
             count_ticks: false,
             group_blobs: BTreeMap::new(),
+            last_media: BTreeMap::new(),
             capture_sidecars: false,
             sidecar_captures: vec![],
             last_crash: None,
@@ -847,7 +850,17 @@ impl World {
                     let size = [0usize, 1, 31, 1024, 70_000][(*tag % 5) as usize];
                     let mut r = crate::rng::Rng::new(self.seed ^ ((step.id as u64) << 20) ^ *tag as u64);
                     let mime = ["text/plain", "application/pdf", "audio/mpeg", "video/mp4", "image/png", "image/jpeg", "image/gif", "image/webp"][(*tag % 8) as usize];
-                    let data = if mime.starts_with("image/") { sim_image(&mut r, mime) } else { r.bytes(size) };
+                    let mut mime = mime;
+                    let mut data = if mime.starts_with("image/") { sim_image(&mut r, mime) } else { r.bytes(size) };
+                    // now and then the same file is sent again (same content hash, another epoch)
+                    if tag % 4 == 3 {
+                        if let Some((d, m)) = self.last_media.get(g) {
+                            data = d.clone();
+                            mime = m;
+                            self.probe("media_same_file_sent_again");
+                        }
+                    }
+                    self.last_media.insert(*g, (data.clone(), mime));
                     // MIME spellings: the library canonicalises what it accepts
                     let spelled: String = match (tag.wrapping_mul(2_654_435_761) >> 8) % 6 {
                         1 => mime.to_uppercase(),
